@@ -119,7 +119,7 @@ def V2_claimable_implies_rewind(ctx):
             for st in bl['stmts']:
                 if any(x.endswith('TxDependency.dependent_state') for x in st['rv'].get('p', {}).get('proj', []) if isinstance(x, str)):
                     fns.add(b['fn'])
-    got = {f.split('::')[-1] for f in fns}
+    got = set().union(*[facts.owners(f) for f in fns] or [set()])
     expected = {'next', 'remove', 'commit', 'key_tx', 'add'}
     ctx.ob('V2', 'tx_dependency::TxDependency', 'who-touches-dependent-state', got == expected,
            f'functions accessing dependent_state: {sorted(got)}; expected {sorted(expected)}',
